@@ -8,6 +8,7 @@ import (
 	"reflect"
 	"time"
 
+	"go.flow.arcalot.io/pluginsdk/mcrt"
 	"go.flow.arcalot.io/pluginsdk/schema"
 	"verif/engine/lib"
 	"verif/engine/ux"
@@ -162,6 +163,78 @@ func check(spec *ukit.Spec, res *ux.Result, only *replay) {
 		})
 	}
 	_ = schema.TypeIDAny
+	if only == nil || only.Path == "firstuse" {
+		firstUse(spec, raws, res)
+	}
+}
+
+// firstUse: schemas with units build their parsing caches on first use. Two threads unserialize accepted unit
+// strings on ONE fresh schema under the cooperative scheduler (all schedules with <= 2 preemptions); every execution
+// is scanned for happens-before races and both results must be the denoted values - a number parsed while the other
+// thread is still filling the caches is not the value the input denotes.
+func firstUse(spec *ukit.Spec, raws []any, res *ux.Result) {
+	units := false
+	spec.Walk(func(n *ukit.Spec) {
+		if n.Units != "" {
+			units = true
+		}
+	})
+	if !units {
+		return
+	}
+	var in []any
+	var want []any
+	for pass := 0; pass < 2 && len(in) < 2; pass++ {
+		for _, raw := range raws {
+			_, isStr := raw.(string)
+			if (pass == 0) != isStr || len(in) >= 2 {
+				continue
+			}
+			if v, d := ukit.Denote(spec, raw); v == ukit.Yes {
+				in, want = append(in, raw), append(want, d)
+			}
+		}
+	}
+	if len(in) < 2 {
+		return
+	}
+	got := make([]any, 2)
+	errs := make([]error, 2)
+	rp := replay{spec, "firstuse", 0, ukit.Show(in)}
+	e := &mcrt.Explorer{MaxPreempt: 2, MaxDelay: 2, MaxSteps: 1 << 20, Races: true, Body: func() {
+		sch := ukit.Build(spec)
+		var wg mcrt.WaitGroup
+		for t := range in {
+			t := t
+			wg.Add(1)
+			mcrt.GoNamed(fmt.Sprintf("unserialize-%d", t), func() { defer wg.Done(); got[t], errs[t] = sch.Unserialize(ukit.DeepCopy(in[t])) })
+		}
+		wg.Wait()
+	}, Check: func(r *mcrt.Result) bool {
+		res.Evaluations++
+		switch r.Status {
+		case mcrt.StPanic:
+			res.Add(fmt.Sprintf("panic in %s: %s", lib.PanicSite(r.PanicStack), lib.PanicClass(r.PanicValue)), "concurrent first use panicked: "+r.PanicValue+"\nschema: "+spec.String(), rp)
+		case mcrt.StComplete:
+			for t := range in {
+				if errs[t] != nil || !ukit.Equiv(got[t], want[t]) {
+					res.Add(fmt.Sprintf("Unserialize returns another value than the one denoted when two callers make the first use of the schema (%s)", kindOf(spec)),
+						fmt.Sprintf("Unserialize(%s) = %s, %v; expected %s (schedule %v)\nschema: %s", ukit.Show(in[t]), ukit.Show(got[t]), errs[t], ukit.Show(want[t]), r.Choices, spec), rp)
+				}
+			}
+		default:
+			res.Add("concurrent first use of a schema does not complete: "+r.Status.String(), fmt.Sprint(r.Blocked)+"\nschema: "+spec.String(), rp)
+		}
+		for _, rc := range r.Races {
+			a, b := rc.First, rc.Then
+			if a > b {
+				a, b = b, a
+			}
+			res.Add("data race on first use of a schema with units: "+a+" <-> "+b, rc.String()+"\nschema: "+spec.String(), rp)
+		}
+		return true
+	}}
+	e.All()
 }
 
 func main() {
@@ -197,7 +270,7 @@ func main() {
 			check(r.Spec, &res, &r)
 			return res.Findings
 		},
-		Rule: "U_leaf (int/float x 9 (min,max) presence combinations incl. min>max x units; strings x length bounds x pattern; bool; pattern; int/string/typed enums with and without display names; any) plus lists and maps over one representative leaf per kind x 6 size-bound combinations x 4 key kinds, plus 5 depth-2 nestings; x V(spec): every bound +-1 in every Go representation (int/uint widths, float32/64, decimal and unit strings), 2^63 edges, NaN/Inf, boolean words in 3 casings, wrong-type probes; three paths: Unserialize(raw) vs the reference denotation, Validate/Serialize(native) for every value of the native type obtained from the constraint-free twin; non-trivial = raw values of the right type whose verdict depends only on the declared constraints",
+		Rule: "U_leaf (int/float x 9 (min,max) presence combinations incl. min>max x units; strings x length bounds x pattern; bool; pattern; int/string/typed enums with and without display names; any) plus lists and maps over one representative leaf per kind x 6 size-bound combinations x 4 key kinds, plus 5 depth-2 nestings; x V(spec): every bound +-1 in every Go representation (int/uint widths, float32/64, decimal and unit strings), 2^63 edges, NaN/Inf, boolean words in 3 casings, wrong-type probes; three paths: Unserialize(raw) vs the reference denotation, Validate/Serialize(native) for every value of the native type obtained from the constraint-free twin; first use: every spec with units, two threads unserializing accepted unit strings on one fresh schema, all schedules with <= 2 preemptions under the cooperative scheduler (sync shim + access events on schema/), race scan and denoted results; non-trivial = raw values of the right type whose verdict depends only on the declared constraints",
 		Assumptions: []string{
 			"reference conversions delegate to strconv.ParseInt(base 10), strconv.ParseFloat, %d and %f as the SDK's 'fixed lenient conversions'",
 			"Unknown (skipped, counted): bool into numbers and strings, non-string into pattern, floats into bool, byte strings, arrays, non-ASCII strings against length bounds, signed/exponent/decimal-on-multiplier unit strings, two raw keys denoting one key, Go-only values for Unserialize, native values of a convertible but different Go type",
